@@ -33,7 +33,7 @@ vars == <<tpl, ord, nl, maps, tgt, ci, ri, req, stage, sc>>
 Empty == [n \in {} |-> 0]
 Rx(name, subs, prods, args, mapped) ==
     [name |-> name, subs |-> subs, prods |-> prods, args |-> args, mapped |-> mapped, map |-> <<>>]
-InitOf == [A |-> 4, B |-> 3, C |-> 5, X |-> 2, Y |-> 1]
+InitOf == [A |-> 4, B |-> 3, C |-> 5, D |-> 6, X |-> 2, Y |-> 1]
 Pars   == [k0 |-> 6, k1 |-> 3, k2 |-> 2, k3 |-> 5]
 
 \* lab: the compounds that receive label positions, in the order in which counts are chosen
@@ -77,6 +77,16 @@ Tpl(id) ==
                                       Rx("v2", <<"B">>, <<>>, <<"k2", "B">>, TRUE),
                                       Rx("v3", <<"C">>, <<>>, <<"k3", "C">>, TRUE),
                                       Rx("v1", <<"A">>, <<"B", "C">>, <<"k1", "A">>, TRUE)>>]
+      \* three units on one side (the third unit's atoms start after the first TWO units' atoms); homo3 mentions the
+      \* doubled substrate NON-adjacently in the rate arguments
+      [] id = "tri3"   -> [cpds |-> <<"A", "B", "C", "D">>, lab |-> <<"A", "B", "C", "D">>, der |-> Empty,
+                           rxns |-> <<Rx("v1", <<"A", "B", "C">>, <<"D">>, <<"A", "B", "C", "k1">>, TRUE)>>]
+      [] id = "split3" -> [cpds |-> <<"A", "B", "C", "D">>, lab |-> <<"A", "B", "C", "D">>, der |-> Empty,
+                           rxns |-> <<Rx("v1", <<"A">>, <<"B", "C", "D">>, <<"k1", "A">>, TRUE)>>]
+      [] id = "homo3"  -> [cpds |-> <<"A", "B", "C">>, lab |-> <<"A", "B", "C">>, der |-> Empty,
+                           rxns |-> <<Rx("v1", <<"A", "A", "B">>, <<"C">>, <<"A", "B", "A", "k1">>, TRUE)>>]
+      [] id = "trimer" -> [cpds |-> <<"A", "B">>, lab |-> <<"A", "B">>, der |-> Empty,
+                           rxns |-> <<Rx("v1", <<"A">>, <<"B", "B", "B">>, <<"A", "k1">>, TRUE)>>]
       [] id = "chain"  -> [cpds |-> <<"A", "B">>, lab |-> <<"A", "B">>, der |-> Empty,
                            rxns |-> <<Rx("v0", <<>>, <<"A">>, <<"k0">>, TRUE),
                                       Rx("v1", <<"A">>, <<"B">>, <<"k1", "A">>, TRUE),
